@@ -78,8 +78,10 @@ impl CertificateAggregatorRequest for Aggregator {
 /// Observes the real cache: which entries were stored (in which attempt), which were hit.
 struct ObservedCache {
     inner: MemoryCertificateVerifierCache,
+    agg: Arc<Aggregator>,
     stores: Mutex<Vec<(String, String)>>,
-    hits: Mutex<Vec<String>>,
+    /// (hash, number of fetches answered so far)
+    hits: Mutex<Vec<(String, usize)>>,
 }
 
 #[async_trait]
@@ -91,7 +93,8 @@ impl CertificateVerifierCache for ObservedCache {
     async fn get_previous_hash(&self, hash: &str) -> MithrilResult<Option<String>> {
         let r = self.inner.get_previous_hash(hash).await?;
         if r.is_some() {
-            self.hits.lock().unwrap().push(hash.to_string());
+            let fetched = self.agg.log.lock().unwrap().len();
+            self.hits.lock().unwrap().push((hash.to_string(), fetched));
         }
         Ok(r)
     }
@@ -147,6 +150,7 @@ fn run_session(kit: &Kit, rt: &tokio::runtime::Runtime, case: &Value, n: usize, 
     });
     let cache = Arc::new(ObservedCache {
         inner: MemoryCertificateVerifierCache::new(TimeDelta::hours(6)),
+        agg: agg.clone(),
         stores: Mutex::new(vec![]),
         hits: Mutex::new(vec![]),
     });
@@ -195,7 +199,15 @@ fn run_session(kit: &Kit, rt: &tokio::runtime::Runtime, case: &Value, n: usize, 
         let ok = accepted;
         let walk = agg.log.lock().unwrap().clone();
         let stores = cache.stores.lock().unwrap().clone();
-        let hits = cache.hits.lock().unwrap().clone();
+        let hits_at = cache.hits.lock().unwrap().clone();
+        let hits: Vec<String> = hits_at.iter().map(|(h, _)| h.clone()).collect();
+        // the cache rule: no cache until a certificate of another epoch than the start certificate
+        // has been reached -- was there a hit while every certificate served so far was of the
+        // start certificate's epoch
+        let before_boundary = hits_at.iter().any(|(_, fetched)| {
+            let start_epoch = walk.first().filter(|(_, i)| *i != 0).map(|(_, i)| certs[*i - 1].epoch);
+            walk.iter().take(*fetched).all(|(_, i)| *i == 0 || Some(certs[*i - 1].epoch) == start_epoch)
+        });
         let validated = events.validated.lock().unwrap().clone();
         stats.cache_hits += hits.len() as u64;
         // ---- the accepted certificate is the one the client returned ----------------------
@@ -267,6 +279,7 @@ fn run_session(kit: &Kit, rt: &tokio::runtime::Runtime, case: &Value, n: usize, 
             "dev_following": ok && following,
             "dev_cache_forged": ok && forged_hit,
             "dev_cache_tainted": ok && tainted_hit,
+            "cache_before_boundary": before_boundary,
         }));
     }
 }
